@@ -45,6 +45,7 @@ func laneText(raw json.RawMessage) ([]vf.Failure, error) {
 		return nil, err
 	}
 	if c.Nest != nil {
+		limit = deepLimit
 		return checkParseOpts(c.Nest.text(), !c.Nest.NoWalk), nil
 	}
 	return checkParse(c.Text), nil
@@ -81,10 +82,18 @@ type outcome struct {
 
 const callLimit = 30 * time.Second
 
+// limit is the watchdog for one parser call. It only exists to turn a call that
+// never returns into a report; it is not a performance verdict. The deep lane's
+// multi-megabyte inputs legitimately take seconds per call on an idle core and
+// many times that on a loaded or slower machine, so they get ten minutes.
+var limit = callLimit
+
+const deepLimit = 10 * time.Minute
+
 func runParse(text string, failFast bool) (outcome, *vf.Failure) {
 	var o outcome
 	what := fmt.Sprintf("ParseFile(failFast=%v)", failFast)
-	if f := vf.GuardTimed(what, callLimit, func() { o.tree, o.err = parser.ParseFile(text, failFast) }); f != nil {
+	if f := vf.GuardTimed(what, limit, func() { o.tree, o.err = parser.ParseFile(text, failFast) }); f != nil {
 		return o, f
 	}
 	if o.err != nil {
@@ -515,14 +524,15 @@ func TestFuzzInput(t *testing.T) {
 // everything else must return within the watchdog.
 func TestDeep(t *testing.T) {
 	r := vf.Start(t, prop, "deep")
+	limit = deepLimit
 	type tmpl struct {
 		name                     string
 		prefix, open, mid, close string
 		depths                   []int
 	}
 	tmpls := []tmpl{
-		{"array", "a = ", "[", "1", "]", []int{1, 10, 999, 1000, 1001, 1002, 5000, 200000, 3000000}},
-		{"array-open", "a = ", "[", "", "", []int{1, 1000, 1001, 200000, 3000000}},
+		{"array", "a = ", "[", "1", "]", []int{1, 10, 999, 1000, 1001, 1002, 5000, 200000, 2500000}},
+		{"array-open", "a = ", "[", "", "", []int{1, 1000, 1001, 200000, 2500000}},
 		{"array-commas", "a = ", "[1,", "2", "]", []int{1000, 1001, 200000}},
 		{"block", "", "b {\n", "", "}\n", []int{1000, 100000}},
 		{"block-open", "", "b {\n", "", "", []int{1000, 100000}},
